@@ -712,7 +712,7 @@ theorem mem_arcReplaced {a : Agent} {c old : Cand} (h : old ∈ arcReplaced a c)
     refine ⟨this.1, ?_⟩
     have h2 := this.2
     simp [Cand.taEqual, arcC1] at h2
-    exact h2.2.1.2
+    exact h2.2.2
 
 theorem arcLoop_post {a : Agent} {L : Log} (h : AInv Good Sane SaneR tag lite (view a) L) (c : Cand) (hc : SaneR c.addr) :
     Post Good Sane SaneR tag lite R L (arcLoop a c) ∧ Stable (arc2 a c) (arcLoop a c).1 := by
@@ -797,7 +797,7 @@ theorem addRemoteCandidate_post {a : Agent} {L : Log} (h : AInv Good Sane SaneR 
       have hm := List.mem_of_find?_eq_some he
       have he' := List.find?_some he
       simp [Cand.equal, Cand.taEqual] at he'
-      exact ⟨he'.1.1.1.2, h.uidR _ (mem_remotes_cv (List.mem_filter.mp hm).1)⟩
+      exact ⟨he'.1.1.2, h.uidR _ (mem_remotes_cv (List.mem_filter.mp hm).1)⟩
     · have h4 := arc4_inv h c hc
       have hl := arcLoop_post (R := R) h c hc
       refine ⟨⟨h4.1, hl.1.2⟩, ?_, ?_⟩
@@ -845,7 +845,7 @@ theorem findPair_spec {a : Agent} {l r : Cand} {q : Pair} (h : a.findPair l r = 
   split at h2
   · rename_i pl pr hl hr
     simp [Cand.equal, Cand.taEqual] at h2
-    exact ⟨pl, pr, hl, hr, h2.1.1.1.1.2, h2.2.1.1.1.2⟩
+    exact ⟨pl, pr, hl, hr, h2.1.1.1.2, h2.2.1.1.2⟩
   · cases h2
 
 theorem addrOf_locs_of_localOf {a : Agent} {u : Nat} {c : Cand} (h : a.localOf u = some c) :
